@@ -3,7 +3,7 @@
 From Coq Require Import String ZArith QArith Bool Arith Lia List Permutation.
 From GT Require Import Base.UTree Spec.Obs Spec.Unrooted Spec.NNISpec Model.Reroot Model.NNI Model.Newick
      Proofs.RerootBase Proofs.Splits Proofs.NNIBase Proofs.NNISem Proofs.NNIMain Proofs.NNICount
-     Proofs.NNISets Proofs.NNIDistinct.
+     Proofs.NNISets Proofs.NNIDistinct Proofs.NNIList Proofs.NNITrees Proofs.NNIInner.
 Import ListNotations.
 Local Close Scope Q_scope.
 Local Open Scope string_scope.
@@ -148,3 +148,63 @@ Theorem kept_proposals t order rs :
   wf t = true -> Model.NNI.pick t order = Some rs ->
   exists l, enumerate rs t = Some (l, t) /\ Forall2 (fun r t' => apply r t = Some t') rs l.
 Proof. intros W H. apply enumerate_valid; auto. eapply pick_valid; eauto. Qed.
+
+(** * last round: the list itself, counts on splits, distinct trees, multifurcations *)
+Theorem proposals_exactly_two t :
+  wf t = true ->
+  NoDup (nni_list t) /\
+  length (nni_list t) = 2 * length (filter both3 (edges_pc t)) /\
+  (forall r, In r (nni_list t) ->
+     nth_error (edge_locs t) (r_edge r) = Some (r_path r, r_k r) /\
+     In (mkNNI (r_edge r) (r_path r) (r_k r) (r_j r) (negb (r_cross r)) (r_flip r)) (nni_list t)) /\
+  (forall r1 r2, In r1 (nni_list t) -> In r2 (nni_list t) ->
+     r_path r1 = r_path r2 -> r_k r1 = r_k r2 -> r_cross r1 = r_cross r2 -> r1 = r2).
+Proof.
+  intros W. split; [apply nni_list_nodup|]. split; [now apply nni_count|]. split.
+  - intros r H. split; [apply (nni_list_in t r H) | now apply nni_list_pair].
+  - apply nni_list_unique.
+Qed.
+
+Theorem two_per_inner_split_unrooted t :
+  wf t = true -> binary t = true -> NoDup (leaves t) -> degree t = 3 ->
+  length (nni_list t) = 2 * inner_split_count t.
+Proof. intros W B ND D. rewrite <- inner_counts; auto. now apply nni_count_unrooted. Qed.
+
+Theorem neighbours_distinct_trees t r1 r2 t1 t2 :
+  wf t = true -> binary t = true -> NoDup (leaves t) ->
+  In r1 (nni_list t) -> In r2 (nni_list t) ->
+  (r_path r1, r_k r1, r_cross r1) <> (r_path r2, r_k r2, r_cross r2) ->
+  apply r1 t = Some t1 -> apply r2 t = Some t2 ->
+  t1 <> t2 /\ utree_eqb t1 t2 = false.
+Proof.
+  intros W B ND I1 I2 Ne A1 A2. apply not_same_splits_trees.
+  exact (neighbours_distinct_binary t r1 r2 t1 t2 W B ND I1 I2 Ne A1 A2).
+Qed.
+
+Theorem neighbour_differs t r t1 :
+  wf t = true -> binary t = true -> NoDup (leaves t) ->
+  In r (nni_list t) -> apply r t = Some t1 ->
+  ~ same_splits t1 t /\ t1 <> t /\ utree_eqb t1 t = false.
+Proof.
+  intros W B ND I A1.
+  assert (H : ~ same_splits t1 t).
+  { eapply neighbour_not_original; eauto; [now apply binary_two_kids | now apply nni_list_valid]. }
+  split; auto. now apply not_same_splits_trees.
+Qed.
+
+(** a tree with a multifurcation: ((a,b),((c,d),(e,f,g)),h); -- the branch to (e,f,g) has an
+    end with four neighbours and is skipped, the three other inner branches get two proposals *)
+Definition witness_multi : utree :=
+  UNode "" [] [Some (e0, cherry "a" "b");
+               Some (e0, UNode "" [] [None; Some (e0, cherry "c" "d");
+                                      Some (e0, UNode "" [] [None; Some (e0, lf "e"); Some (e0, lf "f"); Some (e0, lf "g")])]);
+               Some (e0, lf "h")].
+
+Theorem witness_multi_facts :
+  wf witness_multi = true /\ binary witness_multi = false /\
+  map (fun x => (degree (fst (fst x)), degree (snd x))) (filter (fun x => negb (is_tip (snd x))) (edges_pc witness_multi))
+  = [(3, 3); (3, 3); (3, 3); (3, 4)] /\
+  map (fun r => (r_edge r, r_path r, r_k r, r_cross r)) (nni_list witness_multi)
+  = [(0, [], 0, false); (0, [], 0, true); (3, [], 1, false); (3, [], 1, true);
+     (4, [1], 1, false); (4, [1], 1, true)].
+Proof. vm_compute. repeat split. Qed.
